@@ -8,6 +8,10 @@
 -/
 import Verif.Lemmas.SkipBinCor
 import Verif.Lemmas.SkipTplBytes
+import Verif.Lemmas.SkipBRInst
+import Verif.Lemmas.SkipBRBytes
+import Verif.Lemmas.SkipTplBufiox
+import Verif.Lemmas.SkipTplReader
 namespace Verif.C08
 
 /-- Binary.Skip never accepts anything that is not a well-formed value within the recursion limit
@@ -122,5 +126,299 @@ theorem bytesDec_total (b : Bytes) (t : UInt8) :
 theorem bin_bytesDec_agree (b : Bytes) (t : UInt8) (n : Nat) (h : refLen 64 t b = some n) :
     skipBin b t = .ok n ∧ bytesDecNext ⟨b, 0⟩ t = .ok (b.take n, ⟨b.drop n, 0⟩) :=
   ⟨skipBin_complete b t n h, bytesDec_complete b t n h⟩
+
+/-! ## BufferReader.Skip (stream reader)
+
+  `RdOK r` = C04's reader invariant ∧ sizes ≤ 2^60; `r.Live` = C04's live-source predicate (stream
+  exhausted, or no error seen and the remaining script `Steady`); `remaining r` = what the reader
+  still owes (buffered-unread ++ unread source).  See Props/C02.lean for the wording. -/
+
+/-- SOUNDNESS over ANY source — any fragmentation, any error at any position, spurious failures,
+    empty reads: if BufferReader.Skip reports success, what the reader owed starts with a well-formed
+    value within the recursion limit (+1 for the boundary zone), exactly that value has been
+    consumed and ReadLen has grown by exactly its length. -/
+theorem skipBR_sound (r r' : Rd) (t : UInt8) (hok : RdOK r) (hx : skipBR t r = .ok ((), r')) :
+    ∃ n, refLen 65 t r.remaining = some n ∧ n ≤ r.remaining.length ∧
+      r'.remaining = r.remaining.drop n ∧ r'.readLen = r.readLen + n := by
+  obtain ⟨n, h1, h2, h3, _⟩ := skipBR_sound_any r r' t hok hx
+  rw [defaultRecursionDepth_eq] at h1
+  have h65 := refBR_le_refLen 64 t _ n h1
+  exact ⟨n, h65, refLen_le h65, h2, h3⟩
+
+/-- COMPLETENESS over live sources: every well-formed value with nesting ≤ 64 in front of the reader
+    is skipped, with exactly the grammar's extent -/
+theorem skipBR_complete (r : Rd) (t : UInt8) (n : Nat) (hok : RdOK r) (hl : r.Live)
+    (h : refLen 64 t r.remaining = some n) :
+    ∃ r', skipBR t r = .ok ((), r') ∧ r'.remaining = r.remaining.drop n ∧ r'.readLen = r.readLen + n ∧
+      RdOK r' ∧ r'.Live := by
+  have h2 := skipBR_live r t hok hl
+  rw [defaultRecursionDepth_eq, refLen_le_refBR 64 t _ n h] at h2
+  exact h2
+
+/-- TOTALITY over ANY source: a result or an error — never a panic (no index out of range on a
+    short or nil slice, no (nil, nil) from the reader), and the `for {}` loops terminate -/
+theorem skipBR_total (r : Rd) (t : UInt8) (hok : RdOK r) :
+    (∃ r', skipBR t r = .ok ((), r')) ∨ (∃ e, skipBR t r = .err e) := skipBR_total_any r t hok
+
+/-- over ANY source: whatever is not a well-formed value within 65 levels is rejected with an error.
+    Instances of the hypothesis: every strict prefix of a valid encoding when the stream ends there
+    (`refLen_strict_prefix`), a negative declared size (`refLen_neg_string/_list/_map`), an unknown
+    type tag (`refLen_unknown_type`), nesting beyond the limit. -/
+theorem skipBR_rejects_malformed (r : Rd) (t : UInt8) (hok : RdOK r) (h : refLen 65 t r.remaining = none) :
+    ∃ e, skipBR t r = .err e := by
+  rcases skipBR_total r t hok with ⟨r', hx⟩ | he
+  · obtain ⟨n, h1, _⟩ := skipBR_sound r r' t hok hx
+    rw [h] at h1; cases h1
+  · exact he
+
+/-- over ANY source: never a shorter or longer extent — if the reader owes `v ++ rest` with `v`
+    well-formed (nesting ≤ 64) and Skip succeeds, it has consumed exactly `v` -/
+theorem skipBR_exact_extent (r r' : Rd) (v rest : Bytes) (t : UInt8) (hok : RdOK r)
+    (hrem : r.remaining = v ++ rest) (h : refLen 64 t v = some v.length)
+    (hx : skipBR t r = .ok ((), r')) : r'.remaining = rest ∧ r'.readLen = r.readLen + v.length := by
+  obtain ⟨n, h1, _, h2, h3⟩ := skipBR_sound r r' t hok hx
+  rw [hrem] at h1 h2
+  have hn : n = v.length := refLen_unique h1 (refLen_append h rest)
+  subst hn
+  exact ⟨by simpa using h2, h3⟩
+
+/-- the stream ends inside a value: rejected with an error, over ANY source -/
+theorem skipBR_rejects_strict_prefix (r : Rd) (b : Bytes) (t : UInt8) (d n m : Nat) (hok : RdOK r)
+    (h : refLen d t b = some n) (hm : m < n) (hrem : r.remaining = b.take m) :
+    ∃ e, skipBR t r = .err e :=
+  skipBR_rejects_malformed r t hok (by rw [hrem]; exact refLen_strict_prefix h m hm 65)
+
+/-- bytes-backed reader (`NewBytesReader(b)`, any capacity ≥ len), EVERY byte string, EVERY type
+    byte, no size hypothesis: sound, complete, total -/
+theorem skipBR_bytes_sound (b : Bytes) (cap : Nat) (t : UInt8) (r' : Rd) (hcap : b.length ≤ cap)
+    (hx : skipBR t (Rd.newBytes b cap) = .ok ((), r')) :
+    ∃ n, refLen 65 t b = some n ∧ n ≤ b.length ∧ r'.remaining = b.drop n ∧ r'.readLen = n := by
+  have h2 := skipBR_dry (Rd.newBytes b cap) t (newBytes_dry _ _)
+  obtain ⟨hr, hri⟩ := newBytes_remaining b cap hcap
+  rw [hr, defaultRecursionDepth_eq] at h2
+  cases hb : refBR 64 t b with
+  | none => rw [hb] at h2; obtain ⟨e, he⟩ := h2; rw [he] at hx; cases hx
+  | some n =>
+    rw [hb] at h2
+    obtain ⟨r1, hy, hrem, hlen, _⟩ := h2
+    rw [hy] at hx
+    have : r1 = r' := (Prod.mk.inj (Out.ok.inj hx)).2
+    subst this
+    have h65 := refBR_le_refLen 64 t b n hb
+    exact ⟨n, h65, refLen_le h65, hrem, by simpa [Rd.readLen, hri] using hlen⟩
+
+theorem skipBR_bytes_complete (b : Bytes) (cap : Nat) (t : UInt8) (n : Nat) (hcap : b.length ≤ cap)
+    (h : refLen 64 t b = some n) :
+    ∃ r', skipBR t (Rd.newBytes b cap) = .ok ((), r') ∧ r'.remaining = b.drop n ∧ r'.readLen = n := by
+  have h2 := skipBR_dry (Rd.newBytes b cap) t (newBytes_dry _ _)
+  obtain ⟨hr, hri⟩ := newBytes_remaining b cap hcap
+  rw [hr, defaultRecursionDepth_eq, refLen_le_refBR 64 t b n h] at h2
+  obtain ⟨r', hx, hrem, hlen, _⟩ := h2
+  exact ⟨r', hx, hrem, by simpa [Rd.readLen, hri] using hlen⟩
+
+theorem skipBR_bytes_total (b : Bytes) (cap : Nat) (t : UInt8) :
+    (∃ r', skipBR t (Rd.newBytes b cap) = .ok ((), r')) ∨ (∃ e, skipBR t (Rd.newBytes b cap) = .err e) := by
+  have h2 := skipBR_dry (Rd.newBytes b cap) t (newBytes_dry _ _)
+  cases hb : refBR Facts.defaultRecursionDepth t (Rd.newBytes b cap).remaining with
+  | none => rw [hb] at h2; exact Or.inr h2
+  | some n => rw [hb] at h2; obtain ⟨r', hx, _⟩ := h2; exact Or.inl ⟨r', hx⟩
+
+/-! ## SkipDecoder over bufiox.Reader -/
+
+/-- sound (live source): success ⇒ a well-formed value within 65 levels, returned exactly, consumed
+    exactly, ReadLen += its length -/
+theorem bufioxDec_sound (r r' : Rd) (t : UInt8) (out : Bytes) (hok : RdOK r) (hl : r.Live)
+    (hx : bufioxDecNext r t = .ok (out, r')) :
+    ∃ n, refLen 65 t r.remaining = some n ∧ n ≤ r.remaining.length ∧ out = r.remaining.take n ∧
+      r'.remaining = r.remaining.drop n ∧ r'.readLen = r.readLen + n := by
+  have h2 := bufioxDecNext_exact r t hok hl
+  rw [defaultRecursionDepth_eq] at h2
+  cases hb : refTpl 64 t r.remaining with
+  | none => rw [hb] at h2; obtain ⟨e, he⟩ := h2; rw [he] at hx; cases hx
+  | some n =>
+    rw [hb] at h2
+    obtain ⟨r1, hy, hrem, hlen, _⟩ := h2
+    rw [hy] at hx
+    have hinj := Prod.mk.inj (Out.ok.inj hx)
+    have h65 := refTpl_le_refLen 64 t _ n hb
+    exact ⟨n, h65, refLen_le h65, hinj.1.symm, by rw [← hinj.2]; exact hrem, by rw [← hinj.2]; exact hlen⟩
+
+/-- complete (live source): every well-formed value with nesting ≤ 64 is returned exactly -/
+theorem bufioxDec_complete (r : Rd) (t : UInt8) (n : Nat) (hok : RdOK r) (hl : r.Live)
+    (h : refLen 64 t r.remaining = some n) :
+    ∃ r', bufioxDecNext r t = .ok (r.remaining.take n, r') ∧ r'.remaining = r.remaining.drop n ∧
+      r'.readLen = r.readLen + n ∧ RdOK r' ∧ r'.Live := by
+  have h2 := bufioxDecNext_exact r t hok hl
+  rw [defaultRecursionDepth_eq, refLen_le_refTpl 64 t _ n h] at h2
+  exact h2
+
+/-- total (live source): a value or an error — no panic (no slice out of range on the peeked
+    window, no nil window), loops terminate -/
+theorem bufioxDec_total (r : Rd) (t : UInt8) (hok : RdOK r) (hl : r.Live) :
+    (∃ x, bufioxDecNext r t = .ok x) ∨ (∃ e, bufioxDecNext r t = .err e) := by
+  have h2 := bufioxDecNext_exact r t hok hl
+  cases hb : refTpl Facts.defaultRecursionDepth t r.remaining with
+  | none => rw [hb] at h2; exact Or.inr h2
+  | some n => rw [hb] at h2; obtain ⟨r', hx, _⟩ := h2; exact Or.inl ⟨_, hx⟩
+
+/-- bytes-backed reader, every byte string, every capacity, every type byte: total -/
+theorem bufioxDec_bytes_total (b : Bytes) (cap : Nat) (t : UInt8) :
+    (∃ x, bufioxDecNext (Rd.newBytes b cap) t = .ok x) ∨ (∃ e, bufioxDecNext (Rd.newBytes b cap) t = .err e) := by
+  have h2 := bufioxDecNext_dry (Rd.newBytes b cap) t (newBytes_dry _ _)
+  cases hb : refTpl Facts.defaultRecursionDepth t (Rd.newBytes b cap).remaining with
+  | none => rw [hb] at h2; exact Or.inr h2
+  | some n => rw [hb] at h2; obtain ⟨r', hx, _⟩ := h2; exact Or.inl ⟨_, hx⟩
+
+/-- bytes-backed reader: sound and complete, no size hypothesis -/
+theorem bufioxDec_bytes_sound (b : Bytes) (cap : Nat) (t : UInt8) (out : Bytes) (r' : Rd)
+    (hcap : b.length ≤ cap) (hx : bufioxDecNext (Rd.newBytes b cap) t = .ok (out, r')) :
+    ∃ n, refLen 65 t b = some n ∧ n ≤ b.length ∧ out = b.take n ∧ r'.remaining = b.drop n ∧
+      r'.readLen = n := by
+  have h2 := bufioxDecNext_dry (Rd.newBytes b cap) t (newBytes_dry _ _)
+  obtain ⟨hr, hri⟩ := newBytes_remaining b cap hcap
+  rw [hr, defaultRecursionDepth_eq] at h2
+  cases hb : refTpl 64 t b with
+  | none => rw [hb] at h2; obtain ⟨e, he⟩ := h2; rw [he] at hx; cases hx
+  | some n =>
+    rw [hb] at h2
+    obtain ⟨r1, hy, hrem, hlen, _⟩ := h2
+    rw [hy] at hx
+    have hinj := Prod.mk.inj (Out.ok.inj hx)
+    have h65 := refTpl_le_refLen 64 t b n hb
+    refine ⟨n, h65, refLen_le h65, hinj.1.symm, by rw [← hinj.2]; exact hrem, ?_⟩
+    rw [← hinj.2]; simpa [Rd.readLen, hri] using hlen
+
+theorem bufioxDec_bytes_complete (b : Bytes) (cap : Nat) (t : UInt8) (n : Nat) (hcap : b.length ≤ cap)
+    (h : refLen 64 t b = some n) :
+    ∃ r', bufioxDecNext (Rd.newBytes b cap) t = .ok (b.take n, r') ∧ r'.remaining = b.drop n ∧
+      r'.readLen = n := by
+  have h2 := bufioxDecNext_dry (Rd.newBytes b cap) t (newBytes_dry _ _)
+  obtain ⟨hr, hri⟩ := newBytes_remaining b cap hcap
+  rw [hr, defaultRecursionDepth_eq, refLen_le_refTpl 64 t b n h] at h2
+  obtain ⟨r', hx, hrem, hlen, _⟩ := h2
+  exact ⟨r', hx, hrem, by simpa [Rd.readLen, hri] using hlen⟩
+
+/-! ## ReaderSkipDecoder over a plain io.Reader (`Delivers`: Lemmas/SkipTplReader.lean) -/
+
+theorem readerDec_sound (src src' : Src) (t : UInt8) (out : Bytes)
+    (hd : Delivers src.script src.stream.length = true) (hx : readerDecNext src t = .ok (out, src')) :
+    ∃ n, refLen 65 t src.stream = some n ∧ n ≤ src.stream.length ∧ out = src.stream.take n ∧
+      src'.stream = src.stream.drop n := by
+  have h2 := readerDecNext_exact src t hd
+  rw [defaultRecursionDepth_eq] at h2
+  cases hb : refTpl 64 t src.stream with
+  | none => rw [hb] at h2; obtain ⟨e, he⟩ := h2; rw [he] at hx; cases hx
+  | some n =>
+    rw [hb] at h2
+    obtain ⟨s1, hy, hrem, _⟩ := h2
+    rw [hy] at hx
+    have hinj := Prod.mk.inj (Out.ok.inj hx)
+    have h65 := refTpl_le_refLen 64 t _ n hb
+    exact ⟨n, h65, refLen_le h65, hinj.1.symm, by rw [← hinj.2]; exact hrem⟩
+
+theorem readerDec_complete (src : Src) (t : UInt8) (n : Nat)
+    (hd : Delivers src.script src.stream.length = true) (h : refLen 64 t src.stream = some n) :
+    ∃ src', readerDecNext src t = .ok (src.stream.take n, src') ∧ src'.stream = src.stream.drop n ∧
+      Delivers src'.script src'.stream.length = true := by
+  have h2 := readerDecNext_exact src t hd
+  rw [defaultRecursionDepth_eq, refLen_le_refTpl 64 t _ n h] at h2
+  exact h2
+
+/-- a value or an error: no panic, and the read-full loop terminates (the model's fuel suffices) -/
+theorem readerDec_total (src : Src) (t : UInt8) (hd : Delivers src.script src.stream.length = true) :
+    (∃ x, readerDecNext src t = .ok x) ∨ (∃ e, readerDecNext src t = .err e) := by
+  have h2 := readerDecNext_exact src t hd
+  cases hb : refTpl Facts.defaultRecursionDepth t src.stream with
+  | none => rw [hb] at h2; exact Or.inr h2
+  | some n => rw [hb] at h2; obtain ⟨s', hx, _⟩ := h2; exact Or.inl ⟨_, hx⟩
+
+/-! ## agreement of all five facilities -/
+
+/-- On every well-formed value with nesting ≤ 64 (63 container levels around a leaf) followed by
+    anything, all five skipping facilities — Binary.Skip, BytesSkipDecoder, BufferReader.Skip (bytes-
+    backed and io.Reader-backed), SkipDecoder over bufiox (both), ReaderSkipDecoder — report the same
+    extent `n` (= the grammar's), return the same bytes, and leave the same rest. -/
+theorem three_agree (b : Bytes) (t : UInt8) (n cap : Nat) (script : List Resp)
+    (hcap : b.length ≤ cap) (hsz : b.length ≤ sizeBound)
+    (hst : Steady Facts.maxConsecutiveEmptyReads script b.length 0 = true)
+    (h : refLen 64 t b = some n) :
+    skipBin b t = .ok n ∧
+    bytesDecNext ⟨b, 0⟩ t = .ok (b.take n, ⟨b.drop n, 0⟩) ∧
+    (∃ r', skipBR t (Rd.newBytes b cap) = .ok ((), r') ∧ r'.remaining = b.drop n ∧ r'.readLen = n) ∧
+    (∃ r', skipBR t (Rd.newDefault ⟨b, script⟩) = .ok ((), r') ∧ r'.remaining = b.drop n ∧ r'.readLen = n) ∧
+    (∃ r', bufioxDecNext (Rd.newBytes b cap) t = .ok (b.take n, r') ∧ r'.remaining = b.drop n ∧ r'.readLen = n) ∧
+    (∃ r', bufioxDecNext (Rd.newDefault ⟨b, script⟩) t = .ok (b.take n, r') ∧ r'.remaining = b.drop n ∧
+      r'.readLen = n) ∧
+    (∃ src', readerDecNext ⟨b, script⟩ t = .ok (b.take n, src') ∧ src'.stream = b.drop n) := by
+  have hok := newDefault_ok b script hsz
+  have hl := live_newDefault b script hst
+  obtain ⟨hr, hri⟩ := newDefault_remaining b script
+  refine ⟨skipBin_complete b t n h, bytesDec_complete b t n h, skipBR_bytes_complete b cap t n hcap h, ?_,
+    bufioxDec_bytes_complete b cap t n hcap h, ?_, ?_⟩
+  · obtain ⟨r', hx, hrem, hlen, _⟩ := skipBR_complete _ t n hok hl (by rw [hr]; exact h)
+    exact ⟨r', hx, by rw [hrem, hr], by simpa [Rd.readLen, hri] using hlen⟩
+  · obtain ⟨r', hx, hrem, hlen, _⟩ := bufioxDec_complete _ t n hok hl (by rw [hr]; exact h)
+    exact ⟨r', by rw [hr] at hx; exact hx, by rw [hrem, hr], by simpa [Rd.readLen, hri] using hlen⟩
+  · obtain ⟨s', hx, hrem, _⟩ := readerDec_complete ⟨b, script⟩ t n
+      (Verif.steady_delivers _ script b.length 0 hst) h
+    exact ⟨s', hx, hrem⟩
+
+/-- … and whatever is not a well-formed value within 65 levels (container nesting ≥ 65 in particular)
+    is rejected by all of them with an error -/
+theorem all_reject_beyond_65 (b : Bytes) (t : UInt8) (cap : Nat) (script : List Resp)
+    (hcap : b.length ≤ cap) (hsz : b.length ≤ sizeBound)
+    (hst : Steady Facts.maxConsecutiveEmptyReads script b.length 0 = true)
+    (h : refLen 65 t b = none) :
+    (∃ e, skipBin b t = .err e) ∧ (∃ e, bytesDecNext ⟨b, 0⟩ t = .err e) ∧
+    (∃ e, skipBR t (Rd.newBytes b cap) = .err e) ∧ (∃ e, skipBR t (Rd.newDefault ⟨b, script⟩) = .err e) ∧
+    (∃ e, bufioxDecNext (Rd.newBytes b cap) t = .err e) ∧
+    (∃ e, bufioxDecNext (Rd.newDefault ⟨b, script⟩) t = .err e) ∧
+    (∃ e, readerDecNext ⟨b, script⟩ t = .err e) := by
+  have hok := newDefault_ok b script hsz
+  have hl := live_newDefault b script hst
+  obtain ⟨hr, _⟩ := newDefault_remaining b script
+  refine ⟨skipBin_rejects_deep b t h, ?_, ?_, ?_, ?_, ?_, ?_⟩
+  · rcases bytesDec_total b t with ⟨x, hx⟩ | he
+    · obtain ⟨n, h1, _⟩ := bytesDec_sound b t x.1 x.2 hx; rw [h] at h1; cases h1
+    · exact he
+  · rcases skipBR_bytes_total b cap t with ⟨r', hx⟩ | he
+    · obtain ⟨n, h1, _⟩ := skipBR_bytes_sound b cap t r' hcap hx; rw [h] at h1; cases h1
+    · exact he
+  · exact skipBR_rejects_malformed _ t hok (by rw [hr]; exact h)
+  · rcases bufioxDec_bytes_total b cap t with ⟨x, hx⟩ | he
+    · obtain ⟨n, h1, _⟩ := bufioxDec_bytes_sound b cap t x.1 x.2 hcap hx; rw [h] at h1; cases h1
+    · exact he
+  · rcases bufioxDec_total _ t hok hl with ⟨x, hx⟩ | he
+    · obtain ⟨n, h1, _⟩ := bufioxDec_sound _ x.2 t x.1 hok hl hx; rw [hr, h] at h1; cases h1
+    · exact he
+  · have hd := Verif.steady_delivers _ script b.length 0 hst
+    rcases readerDec_total ⟨b, script⟩ t hd with ⟨x, hx⟩ | he
+    · obtain ⟨n, h1, _⟩ := readerDec_sound ⟨b, script⟩ x.2 t x.1 hd hx; rw [h] at h1; cases h1
+    · exact he
+
+/-- non-vacuity: list<string>["A", ""] followed by garbage, bytes-backed and through a script that
+    delivers one byte per read with the last byte together with io.EOF -/
+example : ∃ r', skipBR TT.LIST (Rd.newBytes [11, 0,0,0,2, 0,0,0,1, 65, 0,0,0,0, 0xEE] 15) = .ok ((), r') ∧
+    r'.remaining = [0xEE] ∧ r'.readLen = 14 :=
+  skipBR_bytes_complete _ 15 TT.LIST 14 (by decide) (by decide)
+
+example : Steady Facts.maxConsecutiveEmptyReads
+    (List.replicate 14 ⟨1, none⟩ ++ [⟨1, some .eof⟩]) 15 0 = true := by decide
+
+example : (skipBin [11, 0,0,0,2, 0,0,0,1, 65, 0,0,0,0, 0xEE] TT.LIST = .ok 14) ∧
+    (∃ src', readerDecNext ⟨[11, 0,0,0,2, 0,0,0,1, 65, 0,0,0,0, 0xEE],
+        List.replicate 14 ⟨1, none⟩ ++ [⟨1, some .eof⟩]⟩ TT.LIST
+      = .ok ([11, 0,0,0,2, 0,0,0,1, 65, 0,0,0,0], src') ∧ src'.stream = [0xEE]) := by
+  have h := three_agree [11, 0,0,0,2, 0,0,0,1, 65, 0,0,0,0, 0xEE] TT.LIST 14 15
+    (List.replicate 14 ⟨1, none⟩ ++ [⟨1, some .eof⟩]) (by decide) (by decide) (by decide) (by decide)
+  exact ⟨h.1, h.2.2.2.2.2.2⟩
+
+/-- a truncated stream (the source ends inside the value) is rejected by the stream skipper -/
+example : ∃ e, skipBR TT.LIST (Rd.newBytes [11, 0,0,0,2, 0,0,0,1, 65, 0,0] 12) = .err e := by
+  rcases skipBR_bytes_total [11, 0,0,0,2, 0,0,0,1, 65, 0,0] 12 TT.LIST with ⟨r', hx⟩ | he
+  · obtain ⟨n, h1, _⟩ := skipBR_bytes_sound _ 12 TT.LIST r' (by decide) hx
+    have : refLen 65 TT.LIST [11, 0,0,0,2, 0,0,0,1, 65, 0,0] = none := by decide
+    rw [this] at h1; cases h1
+  · exact he
 
 end Verif.C08
